@@ -65,7 +65,26 @@ where
                     used.push(U::nat(u));
                     caps.push(U::nat(cp));
                 });
-                U::L(vec![U::nat(n), U::bool(e), U::L(elems), U::L(oob), it, U::L(used), U::L(caps)])
+                // iterator adaptors on a partly consumed iterator: nth(k) after one next(), step_by(2)
+                let nth_after: Vec<U> = (0..n.min(5) + 1)
+                    .map(|k| {
+                        res_n(caught(|| {
+                            let mut i = IC::iter(&c);
+                            let _ = i.next();
+                            i.nth(k)
+                        })
+                        .flatten())
+                    })
+                    .collect();
+                let stepped = match caught(|| {
+                    let mut i = IC::iter(&c);
+                    let _ = i.next();
+                    i.step_by(2).take(n + 8).collect::<Vec<usize>>()
+                }) {
+                    Some(v) => U::Some(Box::new(U::L(v.into_iter().map(|x| U::N(x as u128)).collect()))),
+                    None => U::None,
+                };
+                U::L(vec![U::nat(n), U::bool(e), U::L(elems), U::L(oob), it, U::L(used), U::L(caps), U::L(nth_after), stepped])
             }),
         };
         let stop = r.is_none();
